@@ -1059,6 +1059,11 @@ fn gen_history(r: &mut Rng) -> History {
             Sub::Ctr { threads, .. } | Sub::Cov { threads, .. } => { *threads = *r.pick(&[8u64, 16]); }
             _ => {}
         }
+        if r.chance(1, 2) {
+            // only the stale disk state and the last run (earlier runs of the history would clean up part of it)
+            let l = runs.pop().unwrap();
+            runs = vec![l];
+        }
         if runs[0].out_is_dir() {
             for p in 0..16u64 {
                 for ch in 0..2u64 {
